@@ -125,6 +125,28 @@ CLAIMED["C17"] = dict(
           "Nesting beyond 64 is outside the property. Token events, module state and reject reasons are not yet specified."),
     ref="4 C17")
 
+CLAIMED["C09"] = dict(
+    engine="engine",
+    technique="TLA+ validation state machine WasmValidate (Wasm 1.0 appendix algorithm) used as generator and recogniser, ModuleLimits decision table, WasmMutate mutation scripts; verdicts compared with validate_module under both configs, accepted modules compiled and run with H2 bounds assertions",
+    text=("WasmValidate.tla is the specification's validation algorithm (operand stack with Unknown, control frames, unreachable code) with the chain rule locals + stack height <= 1024; TLC extends every valid "
+          "prefix over a 45-instruction alphabet by every instruction: accepted ones continue, the first rejected one yields a minimally ill-typed body (closed syntactically), unclosed prefixes yield truncated bodies, and "
+          "the invariant GenAgreesWithValidator ties generator and recogniser. ModuleLimits.tla decides module-level restrictions for a valid baseline with one or two parameters at limit-1/limit/limit+1 or switched "
+          "to a forbidden construct (floats in five positions, start section, several memories/tables, import kinds, multi-value, section order, magic). Every vector's verdict must equal validate_module's under V0 and V1, "
+          "with and without metering; accepted modules compile and execute with the H2 assertions. WasmMutate.tla scripts mutate valid binaries: the engine must answer without panicking and run what it accepts."),
+    note=("Typing vectors up to 3-4 instructions plus closing ends; mutated byte strings have no verdict (totality and safe execution only); unsafe code is checked on executed paths only. Found while building: export names are "
+          "limited to 100 bytes, not 512 (spec corrected)."),
+    ref="4 C09")
+CLAIMED["C13"] = dict(
+    engine="engine",
+    technique="TLA+ Interrupt.tla (suspend/resume semantics, transparency checked by TLC on generated programs) over WasmSem; programs with host calls run inline and under every interrupt schedule, and from serialised artifacts (borrowed and owned), all compared with the reference and each other",
+    text=("Interrupt.tla adds suspension at host calls and resumption with the host's value to the reference semantics and TLC checks, for every generated program, argument vector and schedule, that the interrupted run "
+          "ends in the same outcome as the inline run (InterruptTransparent). On the engine every program is run fresh, from its serialised artifact parsed zero-copy, and from the owned conversion - re-serialisation must be "
+          "byte-identical - and programs calling the scripted host function are run with every subset of call sites interrupting (RunConfig::push_value + run_config); result, trap, memory, tick sequence, account_memory and "
+          "host-call log must equal the uninterrupted run and the reference, in all six configurations."),
+    note=("Interrupts are exercised at the wasm-transform level; the chain-level invoke/resume_receive path with state changes during the interrupt is not bound yet (C14 is not claimed). The trusted artifact parser is only fed "
+          "artifacts produced by the engine. Same bounds and known-finding attribution as C01."),
+    ref="4 C13")
+
 NOT_YET = {
 }
 
